@@ -31,6 +31,18 @@ class HarnessTimeout(BaseException):
     pass
 
 
+class HarnessError(BaseException):
+    """something went wrong in the simulator itself (never a verdict about the repository)"""
+
+
+_TIMED_OUT = [False]
+_HARNESS_FLAG = [None]          # set by simulator components when they raise inside repository code that may swallow it
+
+
+def flag_harness_error(msg):
+    _HARNESS_FLAG[0] = msg
+
+
 class Violation:
     __slots__ = ("prop", "kind", "key", "detail")
 
@@ -76,16 +88,26 @@ _CHECK = {}
 
 
 def _alarm(signum, frame):
+    _TIMED_OUT[0] = True
     raise HarnessTimeout("".join(traceback.format_stack(frame, limit=14))[-2500:])
 
 
 def _run_guarded(mod, tape, tier, prop):
     signal.signal(signal.SIGALRM, _alarm)
+    _TIMED_OUT[0] = False
+    _HARNESS_FLAG[0] = None
     signal.alarm(RUN_WALL_LIMIT)
     try:
-        return mod.run_one(tape, tier, prop)
+        res = mod.run_one(tape, tier, prop)
     finally:
         signal.alarm(0)
+    # the repository has bare `except:` clauses that can swallow an exception raised from the alarm handler or from a
+    # simulator seam and carry on with a truncated run: such a run is void, whatever it appeared to produce
+    if _TIMED_OUT[0]:
+        raise HarnessTimeout("the wall-limit alarm fired during this run (and was swallowed by the code under test)")
+    if _HARNESS_FLAG[0]:
+        raise HarnessError(_HARNESS_FLAG[0])
+    return res
 
 
 def _viol_classes(res, prop):
@@ -97,11 +119,20 @@ def _minimise_case(mod, tier, prop, feed, kind, key):
         r = _run_guarded(mod, Tape(feed=feed2), tier, prop)
         return (kind, key) in _viol_classes(r, prop)
     try:
-        best, runs = minimise(feed, still, budget_runs=int(os.environ.get("VERIF_MIN_RUNS", "150")),
-                              budget_s=float(os.environ.get("VERIF_MIN_S", "40")))
-    except HarnessTimeout:
+        best, runs = minimise(feed, still, budget_runs=int(os.environ.get("VERIF_MIN_RUNS", "120")),
+                              budget_s=float(os.environ.get("VERIF_MIN_S", "25")))
+    except (HarnessTimeout, HarnessError):
         best, runs = feed, -1
     return best, runs
+
+
+def _worker_init():
+    """workers must not outlive the parent (SIGTERM/SIGKILL of the check)"""
+    try:
+        import ctypes
+        ctypes.CDLL("libc.so.6", use_errno=True).prctl(1, signal.SIGKILL)      # PR_SET_PDEATHSIG
+    except Exception:
+        pass
 
 
 def work_chunk(args):
@@ -119,7 +150,7 @@ def work_chunk(args):
         except HarnessTimeout as e:
             out["errors"].append({"seed": seed, "error": "run exceeded %ds wall limit; stack at the alarm:\n%s" % (RUN_WALL_LIMIT, e)})
             continue
-        except Exception:
+        except BaseException:       # incl. SystemExit / KeyboardInterrupt raised by the code under test in harness context
             out["errors"].append({"seed": seed, "error": traceback.format_exc()[-3000:]})
             continue
         out["n"] += 1
@@ -144,7 +175,7 @@ def work_chunk(args):
             if cls in seen:
                 continue
             seen.add(cls)
-            if len([x for x in out["violations"] if x["violation"].get("key") not in known_keys]) >= 6:
+            if len([x for x in out["violations"] if x["violation"].get("key") not in known_keys]) >= 3:
                 break
             feed, mruns = list(tape.rec), 0
             if v.key is not None and v.key in known_keys:
@@ -185,9 +216,24 @@ def load_known():
         return {"known": [], "fixed": []}
 
 
+def engine_digest():
+    """hash of the simulator's sources: a tape is positional, so a replay file belongs to the generator version that wrote it"""
+    h = hashlib.sha1()
+    root = os.path.join(VERIF, "pcfgsim")
+    for dp, dn, fns in sorted(os.walk(root)):
+        dn.sort()
+        for fn in sorted(fns):
+            if fn.endswith(".py") and fn not in ("mutants.py", "manifest_data.py"):
+                h.update(fn.encode())
+                h.update(open(os.path.join(dp, fn), "rb").read())
+    return h.hexdigest()[:16]
+
+
 def write_replay(prop, seed, payload):
+    payload = dict(payload, engine_digest=engine_digest())
     os.makedirs(os.path.join(OUT, "replays"), exist_ok=True)
-    path = os.path.join(OUT, "replays", "%s-%d.json" % (prop, seed))
+    tag = hashlib.sha1(repr((payload.get("violation") or {}).get("kind")).encode()).hexdigest()[:6]
+    path = os.path.join(OUT, "replays", "%s-%d-%s.json" % (prop, seed, tag))
     with open(path, "w") as f:
         json.dump(payload, f, indent=1, default=repr, ensure_ascii=True)
     return path
@@ -202,10 +248,22 @@ def main(prop, modname, tier, replay=None):
     base_seed = int(os.environ.get("VERIF_SEED", "0") or 0)
     known = load_known()
     known_keys = {k["key"]: k for k in known.get("known", []) if k["property"] == prop}
+    known_kinds = {k["key"]: set(k.get("kinds") or []) for k in known.get("known", []) if k["property"] == prop}
+
+    def is_known(v):
+        key = v["violation"].get("key")
+        if key is None or key not in known_keys:
+            return False
+        kinds = known_kinds.get(key)
+        return not kinds or v["violation"]["kind"].split("(")[0] in kinds
 
     if replay:
         return do_replay(prop, mod, tier, replay, known_keys)
 
+    try:
+        os.unlink(os.path.join(OUT, "evidence", prop + ".json"))      # a crash must not leave an old pass record
+    except OSError:
+        pass
     cfg = getattr(mod, "CONFIGS", {}).get(prop) or getattr(mod, "CONFIG", {})
     budget = float(os.environ.get("VERIF_BUDGET_S") or cfg.get(tier + "_budget_s", 35 if tier == "quick" else 600))
     max_runs = int(os.environ.get("VERIF_MAX_RUNS") or cfg.get(tier + "_max_runs", 10 ** 9))
@@ -236,11 +294,10 @@ def main(prop, modname, tier, replay=None):
         agg["interleavings"].update(o["interleavings"])
         agg["shapes"].update(o["shapes"])
         agg["sim_seconds"] += o["sim_seconds"]
-        if len(agg["samples"]) < 3:
-            agg["samples"].extend(o["samples"][: 3 - len(agg["samples"])])
+        agg["samples"] = sorted(agg["samples"] + o["samples"], key=lambda s: s["seed"])[:3]
         for v in o["violations"]:
             k = v["violation"].get("key")
-            if k is not None and k in known_keys:
+            if is_known(v):
                 agg["known_counts"][k] += 1
                 if agg["known_counts"][k] > 1:
                     continue
@@ -253,7 +310,7 @@ def main(prop, modname, tier, replay=None):
     harness_error = None
     ctx = multiprocessing.get_context("fork")
     try:
-        with cf.ProcessPoolExecutor(max_workers=nworkers, mp_context=ctx) as ex:
+        with cf.ProcessPoolExecutor(max_workers=nworkers, mp_context=ctx, initializer=_worker_init) as ex:
             pending = set()
             for _ in range(nworkers * 2):
                 c = next_chunk()
@@ -264,10 +321,20 @@ def main(prop, modname, tier, replay=None):
             while pending:
                 done, pending = cf.wait(pending, timeout=5, return_when=cf.FIRST_COMPLETED)
                 for fut in done:
-                    absorb(fut.result())
-                nnew = len([x for x in agg["violations"] if x["violation"].get("key") not in known_keys])
+                    try:
+                        absorb(fut.result())
+                    except cf.process.BrokenProcessPool:
+                        raise
+                    except BaseException as e:      # noqa
+                        harness_error = harness_error or "a worker raised %r" % (e,)
+                        stop = True
+                nnew = len([x for x in agg["violations"] if not is_known(x)])
                 if time.monotonic() - t0 > budget or nnew >= 12 or len(agg["errors"]) >= 5:
                     stop = True
+                if stop:
+                    for pnd in list(pending):
+                        if pnd.cancel():
+                            pending.discard(pnd)
                 if not stop:
                     for _ in range(len(done)):
                         c = next_chunk()
@@ -282,7 +349,7 @@ def main(prop, modname, tier, replay=None):
             # determinism canary: re-run the first seeds in a different process
             if agg["digests"] and not harness_error:
                 seeds = sorted(agg["digests"])[:8]
-                o = ex.submit(work_chunk, (modname, prop, tier, seeds, False)).result()
+                o = ex.submit(work_chunk, (modname, prop, tier, seeds, False, sorted(known_keys))).result()
                 for s in seeds:
                     if o["digests"].get(s) != agg["digests"][s]:
                         harness_error = "determinism canary: seed %d gave two different histories" % s
@@ -311,12 +378,15 @@ def main(prop, modname, tier, replay=None):
     for v in agg["violations"]:
         key = v["violation"].get("key")
         cls = (v["violation"]["kind"], key)
-        if key is not None and key in known_keys:
+        if is_known(v):
             known_hit.setdefault(key, v)
             continue
         new_classes.setdefault(cls, v)
     for key, v in sorted(known_hit.items()):
         print("KNOWN-FINDING: property=%s %s [%s] (e.g. seed %d)" % (prop, known_keys[key]["what"], key, v["seed"]))
+        if os.environ.get("VERIF_WRITE_KNOWN_REPLAYS") == "1":
+            write_replay(prop, v["seed"], {"property": prop, "tier": tier, "seed": v["seed"], "tape": v["tape"],
+                                           "violation": v["violation"], "decoded_case": v.get("case"), "known_finding": key})
     nviol = 0
     for cls, v in sorted(new_classes.items(), key=lambda kv: repr(kv[0])):
         path = write_replay(prop, v["seed"], {"property": prop, "tier": tier, "seed": v["seed"],
@@ -333,6 +403,12 @@ def main(prop, modname, tier, replay=None):
     min_runs = cfg.get("min_runs_" + tier, 1)
     if not harness_error and agg["n"] < min_runs:
         harness_error = "only %d runs completed (minimum %d)" % (agg["n"], min_runs)
+    nrej = sum(agg["rejected"].values())
+    if not harness_error and nviol == 0 and agg["n"] >= 20 and nrej > 0.5 * agg["n"]:
+        harness_error = "%d of %d worlds were rejected (%s): the check decided nothing" % (
+            nrej, agg["n"], dict(agg["rejected"].most_common(3)))
+    if not harness_error and nviol == 0 and agg["n"] >= 50 and len(agg["nontrivial"]) < 2:
+        harness_error = "no non-trivial case among %d runs: the check decided nothing" % agg["n"]
 
     write_evidence(prop, mod, tier, base_seed, agg, wall, nviol, extra, sorted(known_hit), harness_error)
     print("%s tier=%s seed=%d runs=%d nontrivial=%d violations=%d known=%d wall=%.1fs%s" % (
@@ -362,6 +438,8 @@ def write_evidence(prop, mod, tier, seed, agg, wall, nviol, extra, known_hit, ha
         "distinct_history_shapes": len(agg["shapes"]),
         "components": cfg.get("components", {}),
         "known_findings_hit": {k: agg["known_counts"].get(k, 0) for k in known_hit},
+        "repo_state": repo_state(),
+        "engine_digest": engine_digest(),
         "exhaustive": False,
     }
     if extra:
@@ -385,9 +463,24 @@ def write_evidence(prop, mod, tier, seed, agg, wall, nviol, extra, known_hit, ha
 
 
 def do_replay(prop, mod, tier, path, known_keys):
-    with open(path) as f:
-        rp = json.load(f)
+    try:
+        with open(path) as f:
+            rp = json.load(f)
+        rp["violation"]["kind"], rp["tape"]
+    except Exception as e:
+        print("HARNESS-ERROR property=%s cannot read replay file %s: %r" % (prop, path, e))
+        return 2
+    if rp.get("property") and rp["property"] != prop:
+        print("HARNESS-ERROR property=%s replay file %s belongs to property %s" % (prop, path, rp["property"]))
+        return 2
+    if not rp["tape"] and rp["violation"].get("kind", "").endswith(("hash_seed", "interpreters", "simulation")):
+        print("this violation was found by a cross-process phase (fresh interpreters / real subprocesses); it has no tape: "
+              "re-run the check to repeat that phase")
+        return 3
     tier = rp.get("tier", tier)
+    if rp.get("engine_digest") and rp["engine_digest"] != engine_digest():
+        print("note: this replay file was written by another version of the simulator (engine %s, now %s); a tape is "
+              "positional, so it may decode to a different world" % (rp["engine_digest"], engine_digest()))
     want = (rp["violation"]["kind"], rp["violation"].get("key"))
     res = _run_guarded(mod, Tape(feed=rp["tape"]), tier, prop)
     got = _viol_classes(res, prop)
@@ -397,10 +490,22 @@ def do_replay(prop, mod, tier, path, known_keys):
             if v.prop == prop and (v.kind, v.key) == want:
                 print("  detail=%s" % json.dumps(v.detail, default=repr)[:1500])
                 break
-        if want[1] is not None and want[1] in known_keys:
-            print("KNOWN-FINDING: property=%s %s [%s]" % (prop, known_keys[want[1]]["what"], want[1]))
+        kk = known_keys.get(want[1]) if want[1] is not None else None
+        if kk is not None and (not kk.get("kinds") or want[0].split("(")[0] in kk["kinds"]):
+            print("KNOWN-FINDING: property=%s %s [%s]" % (prop, kk["what"], want[1]))
             return 0
         print("VIOLATION property=%s replay=%s" % (prop, path))
         return 1
     print("replay did not reproduce the recorded violation")
     return 3
+
+
+def repo_state():
+    import subprocess
+    try:
+        head = subprocess.run(["git", "-C", scratch.REPO, "rev-parse", "--short", "HEAD"], capture_output=True, text=True, timeout=20).stdout.strip()
+        dirty = bool(subprocess.run(["git", "-C", scratch.REPO, "status", "--porcelain", "--untracked-files=no", "--", "*.py"],
+                                    capture_output=True, text=True, timeout=20).stdout.strip())
+        return {"head": head, "python_sources_modified": dirty}
+    except Exception:
+        return {"head": None}
